@@ -166,8 +166,21 @@ def why_incomplete(F: Facts, ev, depth=0, seen=None):
     return causes
 
 
+def restarted_after_stop(F: Facts):
+    """F16 mechanism: some bus was dispatched to / waited on after its stop() had begun."""
+    for x in F.stops:
+        if F.restart_after_stop(x[0], x[1]) is not None:
+            return True
+    for seq, t, target, by in F.cancels:
+        if target.startswith('runloop:') and F.restart_after_stop(target.split(':', 1)[1], seq) is not None:
+            return True
+    return False
+
+
 def _hang_cause(F: Facts, v):
     causes = set()
+    if v['detail'].get('verdict') == 'LIVELOCK' and restarted_after_stop(F):
+        return 'F16'
     waiting = v['detail'].get('waiting', [])
     for kind, actor, what in waiting:
         if kind == 'await':
@@ -276,6 +289,14 @@ def diagnose(F: Facts, v) -> str:
         ev = key[0]
         c = why_incomplete(F, ev)
         return '+'.join(sorted(c)) if c else 'unexplained'
+    if prop == 'C08' and cl == 'changed_after_complete':
+        ev = key[0]
+        obs = v['detail'].get('observed_at', 0)
+        buses = [x.split(':', 1)[1] for x in v['detail'].get('what', ()) if ':' in x]
+        # F4: the bus whose handlers changed the event had accepted it before completion was observed
+        if buses and all(F.accepted.get((b, ev), 1 << 60) < obs for b in buses) and len([1 for (b, e) in F.accepted if e == ev]) >= 2:
+            return 'F4'
+        return 'unexplained'
     if prop == 'C09' and cl == 'event_bus':
         act, want, got = key
         a = F.acts.get(act)
@@ -283,6 +304,16 @@ def diagnose(F: Facts, v) -> str:
             path = F.final.get('events', {}).get(a.ev, {}).get('path', ())
             if want in path and got in path and path.index(got) > path.index(want):
                 return 'F9'
+        return 'unexplained'
+    if prop == 'C16' and cl == 'handler_after_stop':
+        bus, ev, hi = key
+        a = F.acts.get(v['detail'].get('act'))
+        st = next((x for x in F.stops if x[0] == bus and x[2] is not None and a is not None and x[2] < a.enter_seq), None)
+        if a is not None and st is not None:
+            for p in F.pe.get((bus, ev), ()):
+                # F20: the event's processing had begun (inline, by an awaiting handler) before stop() returned
+                if p[0] < st[2] and (p[1] is None or p[1] > a.enter_seq) and p[2].startswith('inline:'):
+                    return 'F20'
         return 'unexplained'
     if prop == 'C14' and cl == 'parent_never_completes':
         c = why_incomplete(F, key[0])
